@@ -1186,9 +1186,11 @@ func (r *run) loopHeader(fr *frame, li *loopInfo, st *State, reach string) strin
 		if old.Loc != nil || old.Tup != nil {
 			r.unsupported("loop modifies a cell holding a static pointer")
 		}
-		nv := r.symbolic("lp_"+mangle(c.Comment), old.Type)
+		var nv Val
 		if old.Type == nil {
 			nv = Val{Term: r.fresh("lp_"+mangle(c.Comment), old.Sort), Sort: old.Sort}
+		} else {
+			nv = r.symbolic("lp_"+mangle(c.Comment), old.Type)
 		}
 		st.cells[c] = nv
 		// a local slice that only ever receives freshly built values (nil, make, literals,
